@@ -256,6 +256,97 @@ pub fn eval(c: &RawCase) -> Outcome {
     o
 }
 
+/// The statistics clauses on the scenario generator's histories (every framing / content variety the other properties use):
+/// frame counts = calls that returned Ok, bytes_written = bytes the sink received, duration = largest presentation end.
+pub fn eval_scenario(c: &crate::scenario::ValidCase) -> Outcome {
+    use crate::scenario::*;
+    let mut o = Outcome::default();
+    let l = lower(c);
+    let mut ops = l.ops.clone();
+    let fin = ops.len() - 1;
+    ops[fin] = COp::Finish(if c.finish % 2 == 0 { FinishKind::InPlaceStats } else { FinishKind::FinishStats });
+    let run = run_history(&l.cfg, &ops);
+    if let Some(p) = &run.panic {
+        o.aborted_by_panic = Some(p.clone());
+        return o;
+    }
+    let s = match (run.finished_at, run.stats) {
+        (Some(f), Some(s)) if f == fin => s,
+        _ => {
+            o.class("finish_not_ok");
+            return o;
+        }
+    };
+    let nv = ops.iter().zip(run.results.iter()).take(fin).filter(|(op, r)| op.is_video() && r.is_ok()).count() as u64;
+    let na = ops.iter().zip(run.results.iter()).take(fin).filter(|(op, r)| op.is_audio() && r.is_ok()).count() as u64;
+    if s.video_frames != nv || s.audio_frames != na {
+        o.fail(
+            "frames",
+            format!("frames.video_delta={}.audio_delta={}:scenario", s.video_frames as i64 - nv as i64, s.audio_frames as i64 - na as i64),
+            format!("stats report {} video / {} audio frames, {} / {} calls returned Ok", s.video_frames, s.audio_frames, nv, na),
+        );
+    }
+    if s.bytes_written != run.out.len() as u64 {
+        o.fail("bytes", format!("bytes.delta={}:scenario", s.bytes_written as i64 - run.out.len() as i64), format!("stats.bytes_written {} but the sink received {} bytes", s.bytes_written, run.out.len()));
+    }
+    // the frame counts must also be what the file's sample tables hold
+    if let Ok(p) = crate::mp4check::parse(&run.out) {
+        let fv = crate::mp4check::video_track(&p.movie).map(|t| t.samples.len() as u64).unwrap_or(0);
+        let fa = crate::mp4check::audio_track(&p.movie).map(|t| t.samples.len() as u64).unwrap_or(0);
+        if fv != s.video_frames || fa != s.audio_frames {
+            o.fail("frames", "frames.stats_vs_file:scenario", format!("stats report {} / {} frames, the file's tracks hold {} / {} samples", s.video_frames, s.audio_frames, fv, fa));
+        }
+    }
+    let (v, a) = crate::mp4check::accepted(&l, &run);
+    if !v.iter().chain(a.iter()).any(|x| x.tie) {
+        let end = |x: &[&ExpSample]| -> (u64, u64) {
+            let n = x.len();
+            let mut lo = 0u64;
+            let mut hi = 0u64;
+            for i in 0..n {
+                let (dlo, dhi) = if i + 1 < n {
+                    let d = x[i + 1].dts.saturating_sub(x[i].dts);
+                    (d, d)
+                } else if n >= 2 {
+                    let d = x[i].dts.saturating_sub(x[i - 1].dts);
+                    (d, d)
+                } else {
+                    (0, 1)
+                };
+                lo = lo.max(x[i].pts.saturating_add(dlo));
+                hi = hi.max(x[i].pts.saturating_add(dhi));
+            }
+            (lo, hi)
+        };
+        // presentation ends are measured from the track's own start (the file has no start offsets), as in the main check
+        let rel = |x: &[&ExpSample]| -> (u64, u64) {
+            if x.is_empty() {
+                return (0, 0);
+            }
+            end(x)
+        };
+        let (vl, vh) = rel(&v);
+        let (al, ah) = rel(&a);
+        let got = s.duration_secs() * 90000.0;
+        let lo = vl.max(al) as f64;
+        let hi = vh.max(ah) as f64;
+        if hi < 9.0e15 && v.len() == nv as usize && a.len() == na as usize && !(got >= lo - 1.0 && got <= hi + 1.0) {
+            o.fail("duration", format!("duration.{}:scenario", if got < lo { "short" } else { "long" }), format!("stats.duration_secs = {:.1} ticks, largest presentation end over accepted samples = {}..{} ticks", got, lo, hi));
+        }
+    } else {
+        o.unconstrained.push("half_tick_tie".into());
+    }
+    o.nontrivial = nv + na >= 2;
+    o
+}
+
+fn strat_scenario(t: Tier) -> proptest::strategy::BoxedStrategy<crate::scenario::ValidCase> {
+    match t {
+        Tier::Quick => crate::scenario::valid_case_strategy(24, 30).boxed(),
+        Tier::Thorough => crate::scenario::valid_case_strategy(60, 80).boxed(),
+    }
+}
+
 fn strat(t: Tier) -> proptest::strategy::BoxedStrategy<RawCase> {
     // make sure most histories contain a finish: append one unless the history already has some
     let with_finish = |n: usize| {
@@ -283,6 +374,6 @@ pub fn def() -> PropertyDef {
                bytes_written = sink length, duration = largest presentation end +-1 tick. Non-trivial = (>=2 finish attempts or a call after finish) \
                and >= 2 accepted frames",
         assumptions: &["a lone sample's duration is unknowable: its end may be pts+0 or pts+1 tick"],
-        subs: vec![Box::new(PSub { name: "finalisation", quick: 40000, thorough: 1200000, strat, eval }), Box::new(LSub { name: "bursts_and_long", cases: burst_cases, eval, note: BURST_NOTE })],
+        subs: vec![Box::new(PSub { name: "finalisation", quick: 40000, thorough: 1200000, strat, eval }), Box::new(LSub { name: "bursts_and_long", cases: burst_cases, eval, note: BURST_NOTE }), Box::new(PSub { name: "scenario_statistics", quick: 20000, thorough: 500000, strat: strat_scenario, eval: eval_scenario })],
     }
 }
